@@ -149,11 +149,12 @@ class E1:
             self._inconclusive(self.site, f"assumptions not satisfiable ({q.verdict}) - vacuous harness")
         return q
 
-    def obligation(self, name, pred, extra_hyps=(), timeout_s=None, cases=None, split=False, site=None):
+    def obligation(self, name, pred, extra_hyps=(), timeout_s=None, cases=None, split=False, site=None, extreme=False):
         """pred(ins, outs) -> element/SA/list of bools; must hold for all inputs satisfying hyps.
         cases: optional list of (label, hypothesis) - the obligation is proved per case and a
         separate obligation shows the cases are exhaustive.  split: prove each element of an SA
-        goal as its own query."""
+        goal as its own query.  extreme: the property quantifies over extreme magnitudes too, so a sat verdict is
+        also replayed on a model with widely separated large inputs (the oracle must be numerically stable there)."""
         import inspect as _insp
         wants_noise = len([p for p in _insp.signature(pred).parameters.values() if p.default is _insp.Parameter.empty]) >= 3
         pred = self._arity3(pred)
@@ -189,7 +190,7 @@ class E1:
                     self._inconclusive(full + glab + clab, "solver returned unknown")
                     result = None
                     continue
-                r = self._replay(name, full + glab + clab, pred, h2, g, q, site, wants_noise)
+                r = self._replay(name, full + glab + clab, pred, h2, g, q, site, wants_noise, extreme=extreme)
                 if r is False:
                     return False
                 result = None
@@ -232,12 +233,12 @@ class E1:
             out.append((kind, term, shape, extra, V.obj_array(np.asarray(r))))
         return Noise(out)
 
-    def _replay(self, name, full, pred, hyps, goal, q, site=None, wants_noise=True):
+    def _replay(self, name, full, pred, hyps, goal, q, site=None, wants_noise=True, extreme=False):
         """sat: turn solver models into concrete inputs and replay them on the real code.  Several models are tried
         (bounded and away from zero, bounded, the solver's own) because a model may sit on a point where the
         difference is below the float tolerance."""
         models = []
-        for strat in ("distinct", "nonzero", "bounded"):
+        for strat in ("distinct", "nonzero", "bounded") + (("extreme",) if extreme else ()):
             m = self._polish(hyps, goal, strat)
             if m is not None:
                 models.append(m)
@@ -345,7 +346,13 @@ class E1:
             s.add(c)
         for a in ground_axioms(cons):
             s.add(a)
-        for v in vs:
+        if strategy == "extreme":  # large, widely separated magnitudes (saturating softmax / clipping ranges)
+            for v in vs:
+                s.add(v >= -400, v <= 400)
+            for i_, a_ in enumerate(vs[:8]):
+                for b_ in vs[i_ + 1:8]:
+                    s.add(z3.Or(a_ - b_ >= 150, b_ - a_ >= 150))
+        for v in vs if strategy != "extreme" else ():
             s.add(v >= -4, v <= 4)
             if strategy in ("nonzero", "distinct"):
                 s.add(z3.Or(v >= z3.RealVal(1) / 2, v <= -z3.RealVal(1) / 2))
